@@ -333,16 +333,16 @@ int main(int argc, char** argv)
         if (p != std::string::npos) g_reported.fetch_add(std::strtol(s.c_str() + p + 8, nullptr, 10));
         else std::fprintf(stderr, "notifier: %s\n", s.c_str());
       };
-      quill::Backend::start(bo);
       auto sink = VFrontend::create_or_get_sink<CountSink>("count");
       X.sink = sink.get();
       logger = VFrontend::create_or_get_logger("L", std::move(sink));
-      // warm-up in set-up mode: both thread contexts exist and are in the backend's cache (X's first), the queues are empty again
+      // warm-up in set-up mode, BEFORE the backend exists (so that no unscripted race can occur): both thread contexts are
+      // registered (X's first) and hold one statement; then the backend starts, picks them up and empties the queues
       X.start(logger);
       X.run(1);
-      while (g_delivered.load() < 1) std::this_thread::sleep_for(std::chrono::microseconds{50});
       Y.start(logger);
       Y.run(1);
+      quill::Backend::start(bo);
       while (g_delivered.load() < 2) std::this_thread::sleep_for(std::chrono::microseconds{50});
       auto& bw = quill::detail::BackendManager::instance()._backend_worker;
       auto& qx = X.ctx->get_spsc_queue_union().bounded_spsc_queue;
@@ -355,6 +355,7 @@ int main(int argc, char** argv)
         shim::g_names[&Y.ctx->_valid] = "V";
         shim::g_names[&quill::detail::ThreadContextManager::instance()._new_thread_context_flag] = "F";
         shim::g_names[&X.ctx->_failure_counter] = "C";
+        shim::g_names[&quill::detail::ThreadContextManager::instance()._spinlock._flag] = "L";      // (parked at only on request)
         shim::g_names[&X.sink->_new_filter] = "NF";        // named for its memory orders only: never scripted, reads the newest message
       }
       // arm: from now on B parks at the head of its loop
